@@ -75,7 +75,19 @@ def run_copies(ctx, out):
     sup = core.build_sup()
     d0 = ctx.work.fresh("c12copy")
     ncase = 36 if quick else 400
-    for k in range(ncase):
+    # DIRECTED cases after the generated ones (one multi-block file, one worker: the order of the data calls is known): the kernel
+    # copy reports end-of-data at the first call, in a middle block and at the first call of the TAIL block; a late EIO; and a
+    # client slowed down at random so that whatever the walker does between queueing a file and announcing it is stretched
+    directed = []
+    for drv in ("parfile", "parblock"):
+        for nth in (1, 3, 6):
+            directed.append(dict(driver=drv, workers=1, bs=65536, upd="chan", size=5 * 65536 + 1000, fault="cfr-zero@%d/6" % nth,
+                                 rule=("ret", 0, 0, "copy_file_range", nth)))
+        directed.append(dict(driver=drv, workers=1, bs=65536, upd="rec", size=5 * 65536 + 1000, fault="cfr-EIO@6/6", rule=("fail", 5, 0, "copy_file_range", 6)))
+        for i in range(3 if quick else 10):
+            directed.append(dict(driver=drv, workers=2, bs=4096, upd=("recslow" if i % 2 == 0 else "rec"), size=3 * 65536 + i, fault=None, rule=None, hold=500))
+    for k in range(ncase + len(directed)):
+        spec = directed[k - ncase] if k >= ncase else None
         d = os.path.join(d0, "c%d" % k)
         os.makedirs(d)
         sizes = trees.SizeAlloc(rng, small=rng.random() < 0.7)
@@ -83,16 +95,20 @@ def run_copies(ctx, out):
         # copy call's result is then the only report
         tree = trees.gen_dir(rng, rng.choice([1, 2, 3]), rng.choice([3, 5]), sizes, specials=(0.25 if k % 3 == 2 else 0.0),
                              link_targets=[b"a", b"../a", b"nowhere", b"b/c", b"./x"])
+        if spec:
+            tree = ("dir", {b"only.bin": ("file", spec["size"], {}), b"tiny": ("file", 7, {})}, {})
         trees.materialise(tree, os.fsencode(os.path.join(d, "src")))
         os.mkdir(os.path.join(d, "dst"))
         driver = rng.choice(["parfile", "parblock"])
         workers = rng.choice([1, 2, 4, 8])
         bs = rng.choice([1000, 4096, 65536, U64MAX])
+        if spec:
+            driver, workers, bs = spec["driver"], spec["workers"], spec["bs"]
         # every fourth tree also holds a sparse file of three data segments: its copy is a WALK (seek, copy a segment, seek ...)
         # in which a call can fail late, after earlier segments were copied and reported
         sparse_rel = None
         extra_total = 0
-        if k % 4 == 1:
+        if k % 4 == 1 and not spec:
             import fsutil
             sparse_rel = b"zz_sparse.bin"
             MiB = 1 << 20
@@ -150,12 +166,16 @@ def run_copies(ctx, out):
                 rules = [("fail", 28, 0, "ftruncate", 1, victim)]
             else:
                 rules = [("fail", 13, 0, "openat", 1, victim)]
+        if spec:
+            upd, fault = spec["upd"], spec["fault"]
+            rules = [spec["rule"] + (os.path.join(d, "dst", "src", "only.bin"),)] if spec["rule"] else []
+            out.count("directed_cases")
         upath = os.path.join(d, "updates.log")
         argv = [ctx.bins["probe"], "copy", driver, str(workers), str(bs), upd, "--reflink=never", "--",
                 os.path.join(d, "src"), os.path.join(d, "dst")]
         run = xcp.run_supervised(sup, argv, d, d, rules=rules, fd9=upath, tag="u",
-                                 seed=rng.randrange(1 << 30), hold_permille=rng.choice([0, 100, 300]), hold_maxms=3,
-                                 timeout_ms=60000)
+                                 seed=rng.randrange(1 << 30), hold_permille=(spec.get("hold") if spec and spec.get("hold") else rng.choice([0, 100, 300])),
+                                 hold_maxms=(8 if spec and spec.get("hold") else 3), timeout_ms=60000)
         total = trees.total_file_size(tree) + extra_total
         rep = dict(kind="copy", tree=trees.describe(tree), driver=driver, workers=workers, bs=bs, updater=upd, fault=fault,
                    argv=argv, stdout=run.stdout[-600:], stderr=run.stderr[-300:], exit=run.exit)
@@ -232,7 +252,7 @@ def run_copies(ctx, out):
             out.violation(bad, rep)
             continue
         clean = (fault is None)
-        if upd in ("rec", "chanwrap"):
+        if upd in ("rec", "recslow", "chanwrap"):
             if clean and announced != total:
                 out.violation("Size updates sum to %d but the selected regular files total %d" % (announced, total), rep)
                 continue
